@@ -44,7 +44,8 @@ RULE = ("every run starts with the boundary counts N = 1, 2, 63, 64, 65, 128, 25
         "non-trivial = N>=2 and (export: subtomogram numbers of both parities, not equal to 1..N, at least 10 distinct values among the 14 shared fields "
         "of a particle; import: column order != documented order); distinct = distinct case content")
 ASSUMPTIONS = [
-    "STAR layer: theorem via_file_c02 derives the file round trip from C02's typed_roundtrip for the C02 model of Starfile.write/read; what stays outside the "
+    "STAR layer: theorem via_file_c02 derives the file round trip from C02's typed_roundtrip for the C02 model of Starfile.write/read, for tables whose numbers "
+    "the printer prints as number cells (no NaN: write_out's fillna(0), pinned by the body digest and executed on every case, is not part of the model); what stays outside the "
     "proof is value -> printed digits (DataFrame.round(6) + repr) and digits -> value (pandas.to_numeric), observed each run: every written file is parsed by the "
     "harness's own tokenizer and re-read by StopgapMotl(path), compared at 5e-7 + 16 ulp",
     "pandas: `df[col] = ndarray` assigns by position, `df[col] = Series` aligns on index labels; `Series.mod(2).eq(0)` is numpy floored modulo "
@@ -1835,13 +1836,21 @@ LEVEL_TEXT = ("Lean 4 theorems about an executable model of StopgapMotl.convert_
               "(the wrappers Motl.write_out / Motl.load with motl_type='stopgap'), updateCoord_recentred / updateCoord_rat / updateCoord_rat_ties (update_coord over "
               "exact arithmetic: integer coordinate, |shift| <= 1/2, position kept, halves away from zero on both signs), "
               "fromSg_toSg, toSg_fromSg, export_update_coord, via_file and via_file_c02 (the file round trip PROVED from C02's typed_roundtrip for the C02 model "
-              "of Starfile.write/read: star_layer_roundtrip discharges the former abstract hypothesis; only value<->digits conversion stays a parameter). "
+              "of Starfile.write/read: star_layer_roundtrip discharges the former abstract round-trip hypothesis. What is proved is WHERE every field goes -- same "
+              "particles, same order, each of the 14 fields = print-then-parse of that one field; print-then-parse itself (value<->digits) is an ARBITRARY "
+              "parameter, so 'to STAR precision' has no theorem: it is the harness tolerance. One hypothesis on the printer remains: the numbers of the table "
+              "written are printed as number cells (via_file_c02_cells / via_file_wrappers; via_file_c02 asks it of every value, which no faithful float printer "
+              "meets because of NaN); the fillna(0) of write_out is pinned and executed but not modelled). "
               "Tied to the source by regenerated tables (pairs, columns, the halfset expression literals, statement order, motl_idx source, reset range, block "
               "name, STAR precision, by-position assignment, eight signature defaults, the 'stopgap' branches of Motl.write_out / Motl.load, one digest theorem per "
               "entry point for the normalised bodies of the eight entry points -- annotations, message texts, local names and operator spellings neutralised) and by an "
               "exact differential run of the real code (in memory; via file to 5e-7) against the model, incl. two-step histories on the same paths / frame")
-LEVEL_NOTE = ("via_file_c02 is proved relative to the C02 model of the STAR layer; the numeric conversion value -> digits -> value (round(6), repr, to_numeric) is "
-              "validated, not proved (file comparisons at tolerance 5e-7+16ulp); trusted: Lean kernel, translator AST extraction, harness STAR tokenizer, exact "
+LEVEL_NOTE = ("via_file_c02(_cells) is proved relative to the C02 model of the STAR layer and under the hypothesis that the printer prints the numbers of the written "
+              "table as number cells (tables without NaN; write_out's fillna(0) is not in the model); the clause 'reproduces all 14 fields to STAR precision' has NO "
+              "theorem: the numeric conversion value -> digits -> value (round(6), repr, to_numeric) is an arbitrary parameter of the theorems and is "
+              "validated, not proved (file comparisons at tolerance 5e-7+16ulp); the parity theorems (halfset_even_odd, _bits, halfset_parity_float_ids) are about the "
+              "model at exact integer parity (intOps / intBitOps = what the verified checker runs on the real output), the executed float modulo of the driver is "
+              "linked to them only by the run-time cross-check decode_agrees; trusted: Lean kernel, translator AST extraction, harness STAR tokenizer, exact "
               "bit decoding (cross-checked at run time), pandas positional/label assignment semantics, Decimal ROUND_HALF_UP = Float.round (probed)")
 TECHNIQUE = "Lean 4 proof (fold invariants over an arbitrary injective renaming table, list induction, bridge to the C02 STAR model) + regenerated tables + verified checker + differential correspondence with cross-call histories"
 DESIGN_REF = "DESIGN.md section 4, C04"
